@@ -144,6 +144,8 @@ def run(tier, seed):
         d = json.loads(r.stdout)
         chk.bounded = {'rule': 'BOUNDED stand-in for the composition of the contracts: all strings over {table char, second table '
                                'char, newline, non-table byte} up to length %d, and every byte value 1-255 alone / in a run / in a repeated pattern, through the real compress_code, an independent '
+                               'reference decoder and the real decompress_code; hand-made well-formed streams with self-overlapping back-references '
+                               '(offsets 1-6 x lengths 3-17) through the reference decoder and the real decompress_code; the compressor output through an independent '
                                'reference decoder and the real decompress_code; plus %d whole code areas (texts with / without _update60 x 8 endings) through the real '
                                'get_bytes_from_code, an independent header+stream decoder and the real get_code_from_bytes' % (L - 1, d.get('areas', 0)),
                        'bound': L - 1, 'evaluations': d['n'], 'failures': d['n_bad']}
